@@ -252,6 +252,50 @@ theorem c03_stepup_remint_counterexample :
       1790661645 1790748045 = false := by
   decide
 
+/-! ### overlapping requests -/
+
+/-- **Overlap**: any number of requests served at the same time, in whatever order they reach the
+signer — the answer to the `i`-th one is computed from its own form and its own session alone, so
+it satisfies the property's predicate *relative to its own authentication moment* (`sshOK` /
+`windowOK` with `fs[i].iat`): a session is never handed a certificate sized for another, fresher
+session of the same user. -/
+theorem c03_overlap (fsec : Int → Int) (hf : FloatSecs fsec) (fs : List Flight) (i : Nat) (hi : i < fs.length)
+    (w : Int × Int)
+    (hiat0 : 0 ≤ fs[i].iat) (hiat1 : fs[i].iat < horizon)
+    (h0 : 0 ≤ fs[i].tb) (h1 : fs[i].tb ≤ fs[i].t1) (h2 : fs[i].t1 ≤ fs[i].t2) (h3 : fs[i].t2 ≤ fs[i].ta)
+    (h4 : fs[i].ta < horizon)
+    (h : (serveEach KM.Gen.C03.shape KM.Gen.C03.maxCertificateLifetime fsec fs)[i]? = some (some w)) :
+    flightOK fs[i] w = true := by
+  unfold serveEach at h
+  rw [List.getElem?_map, List.getElem?_eq_getElem hi] at h
+  simp only [Option.map_some, Option.some.injEq] at h
+  unfold answer at h
+  unfold flightOK
+  obtain ⟨va, vb⟩ := w
+  by_cases hs : fs[i].ssh = true
+  · rw [if_pos hs] at h ⊢
+    exact c03_ssh fsec hf _ _ _ _ _ _ va vb hiat0 hiat1 h0 h1 h2 h3 h4 h
+  · rw [if_neg hs] at h ⊢
+    exact (c03_x509 _ _ _ _ _ _ va vb hiat0 hiat1 h0 h1 h2 h3 h4 h).1
+
+/-- why the answer must be the invocation's own: a coalescer keyed by what is asked hands the
+session authenticated 23 h ago the 24-hour certificate being signed for a session authenticated
+just now (SSH and X.509); served each on its own, the old session gets the remaining hour -/
+theorem c03_overlap_coalesced_counterexample :
+    serveCoalesced shapeRepaired userCap truncSecs
+      [⟨true, .parsed 86400000000000, 1790661645500000000, 1790661645400000000, 1790661645500000000, 1790661645600000000, 1790661646000000000⟩,
+       ⟨true, .parsed 86400000000000, 1790661645000000000 - 82800000000000, 1790661645450000000, 1790661645550000000, 1790661645650000000, 1790661646000000000⟩]
+      = [some (1790661645, 1790748045), some (1790661645, 1790748045)] ∧
+    flightOK ⟨true, .parsed 86400000000000, 1790661645000000000 - 82800000000000, 1790661645450000000, 1790661645550000000, 1790661645650000000, 1790661646000000000⟩
+      (1790661645, 1790748045) = false ∧
+    flightOK ⟨false, .absent, 1790661645000000000 - 82800000000000, 1790661645450000000, 1790661645550000000, 1790661645650000000, 1790661646000000000⟩
+      (1790661645, 1790748045) = false ∧
+    serveEach shapeRepaired userCap truncSecs
+      [⟨true, .parsed 86400000000000, 1790661645500000000, 1790661645400000000, 1790661645500000000, 1790661645600000000, 1790661646000000000⟩,
+       ⟨true, .parsed 86400000000000, 1790661645000000000 - 82800000000000, 1790661645450000000, 1790661645550000000, 1790661645650000000, 1790661646000000000⟩]
+      = [some (1790661645, 1790748045), some (1790661645, 1790665244)] := by
+  decide
+
 /-! ### fixed-lifetime certificates -/
 
 /-- **Role-requesting certificates**: both parameter parsers set `Duration` to the constant, the
